@@ -108,29 +108,35 @@ Fixpoint validate_loop (fs : list finding) (ids : list ((N * N) * advisory)) : o
 Definition validate_advisories (fs : list finding) : option adv_err := validate_loop fs [].
 
 (* ------------------------------------------------------------------ detector.Run *)
-(* `f.Detectors = []string{d.Name()}` writes through the pointer: a log of (pointer, name) writes in
-   chronological order; the final value of a finding's Detectors field is the LAST write *)
+(* Since the fix "detector.Run tags a copy of each finding", Run does
+     tagged := *f; tagged.Detectors = []string{d.Name()}; findings = append(findings, &tagged)
+   i.e. the reported entry is a fresh copy carrying the detector's name, and NOTHING is written
+   through the detector's own pointer.  The pointer identity of the results (fref) is kept in the
+   model so that this can be stated: l_log is the log of (pointer, name) writes to detector-owned
+   Finding values, in chronological order; the value of such a Finding's Detectors field after the
+   run is the last write (tag_lookup). *)
 Definition taglog := list (N * N).
-Definition tag_writes (d : detector) : taglog := map (fun r => (fst r, d_name d)) (d_results d).
 Definition tag_lookup (p : N) (log : taglog) : list N :=
   match find (fun e => N.eqb (fst e) p) (rev log) with
   | Some e => [snd e]
-  | None => []          (* never written: Detectors stays nil *)
+  | None => []          (* never written: Detectors stays as the detector left it (nil) *)
   end.
 
 Inductive run_err := ErrCtx | ErrAdvisory.
 Definition run_err_eqb (a b : run_err) : bool :=
   match a, b with ErrCtx, ErrCtx | ErrAdvisory, ErrAdvisory => true | _, _ => false end.
 
+Definition tag_results (d : detector) : list tagged := map (fun r => mkTagged (snd r) [d_name d]) (d_results d).
+
 Record loop_state := mkLoop {
   l_calls : list (N * index);      (* Scan calls made: (detector name, index it received) *)
-  l_acc : list fref;               (* findings = append(findings, results...) *)
-  l_log : taglog;
+  l_acc : list tagged;             (* findings = append(findings, &tagged) *)
+  l_log : taglog;                  (* writes through detector-owned pointers *)
   l_status : list status
 }.
 Definition loop_init : loop_state := mkLoop [] [] [] [].
 Definition loop_step (px : index) (st : loop_state) (d : detector) : loop_state :=
-  mkLoop (l_calls st ++ [(d_name d, px)]) (l_acc st ++ d_results d) (l_log st ++ tag_writes d) (l_status st ++ [status_from_err d]).
+  mkLoop (l_calls st ++ [(d_name d, px)]) (l_acc st ++ tag_results d) (l_log st) (l_status st ++ [status_from_err d]).
 
 (* returns the state and whether the loop was left through `if ctx.Err() != nil { return nil, nil, ctx.Err() }` *)
 Fixpoint run_loop (px : index) (dets : list detector) (cancelled : bool) (st : loop_state) : loop_state * bool :=
@@ -143,16 +149,16 @@ Record run_result := mkRun {
   rr_calls : list (N * index);
   rr_findings : list tagged;
   rr_status : list status;
-  rr_err : option run_err
+  rr_err : option run_err;
+  rr_writes : taglog               (* what Run wrote into the detectors' own Finding values *)
 }.
 
 Definition detector_run (px : index) (dets : list detector) (ctx_cancelled : bool) : run_result :=
   let '(st, aborted) := run_loop px dets ctx_cancelled loop_init in
-  if aborted then mkRun (l_calls st) [] [] (Some ErrCtx)
-  else match validate_advisories (map snd (l_acc st)) with
-       | Some _ => mkRun (l_calls st) [] (l_status st) (Some ErrAdvisory)
-       | None => mkRun (l_calls st) (map (fun r => mkTagged (snd r) (tag_lookup (fst r) (l_log st))) (l_acc st))
-                       (l_status st) None
+  if aborted then mkRun (l_calls st) [] [] (Some ErrCtx) (l_log st)
+  else match validate_advisories (map t_finding (l_acc st)) with
+       | Some _ => mkRun (l_calls st) [] (l_status st) (Some ErrAdvisory) (l_log st)
+       | None => mkRun (l_calls st) (l_acc st) (l_status st) None (l_log st)
        end.
 
 (* ------------------------------------------------------------------ tail of Scanner.Scan *)
@@ -195,13 +201,5 @@ Definition expected_status (dets : list detector) : list status := map status_fr
 (* context never cancelled while a later detector is still to run *)
 Definition no_cancel (dets : list detector) : bool := forallb (fun d => negb (d_cancels d)) dets.
 
-(* DOMAIN D for the tagging statement: no *Finding pointer is returned by two detectors of
-   different names (see findings_intact_refuted) *)
+(* the pointers a detector returns (used to observe the detectors' own Finding values after the run) *)
 Definition ptrs (d : detector) : list N := map fst (d_results d).
-Definition memN (n : N) (l : list N) : bool := existsb (N.eqb n) l.
-Definition shares_ptr (d d' : detector) : bool := existsb (fun p => memN p (ptrs d')) (ptrs d).
-Fixpoint no_cross_alias (dets : list detector) : bool :=
-  match dets with
-  | [] => true
-  | d :: ds => forallb (fun d' => N.eqb (d_name d') (d_name d) || negb (shares_ptr d d')) ds && no_cross_alias ds
-  end.
